@@ -38,6 +38,7 @@ def units(tier, seed):
         {"sid": "list", "family": "astral", "size": 7 if q else 9},
         {"sid": "struct", "family": "struct", "size": 8 if q else 9},
         {"sid": "topmarks", "family": "topmarks", "size": 6 if q else 7},
+        {"sid": "basic", "family": "links", "size": 5 if q else 6},
     ]
     extra = [
         {"sid": "list", "family": "lists_q", "size": 10 if q else 14},
@@ -62,9 +63,14 @@ def nj(n):
     return None if n is None else jkey(n.to_json())
 
 
-def check_doc(c, d, res):
+def check_doc(c, d, res, node=None, derive=True):
+    """node: a LIVE node to examine (default: built from the JSON d).  derive: afterwards also examine documents
+    derived from this very object by a few edits - they share sub-trees (and any per-object caches) with it."""
     model = c.model
-    node = c.node(d)
+    if node is None:
+        node = c.node(d)
+    else:
+        d = node.to_json()
     ref = rp.RefDoc(model, d)
     T = tk.doc_tokens(model, d)
     size = ref.size
@@ -262,6 +268,41 @@ def check_doc(c, d, res):
                 pass
             except Exception as e:  # noqa: BLE001
                 bad("c09.find_index.out-of-range", {"node_at": rn.pos, "offset": bad_off}, common.exc_str(e), "ValueError")
+    if derive and size <= 4:
+        seen = set()
+        for dn in derived_docs(c, node, size):
+            k = jkey(dn.to_json())
+            if k in seen:
+                continue
+            seen.add(k)
+            before = len(res.violations)
+            check_doc(c, None, res, node=dn, derive=False)
+            if len(res.violations) > before:
+                v = res.violations[-1]
+                v.case = {"derived_from": d, **(v.case if isinstance(v.case, dict) else {})}
+
+
+def derived_docs(c, node, size):
+    """Live documents derived from `node` (after it has been queried): single-token deletes, a text insertion at
+    every position, Node.cut - through the real API, keeping object identity of the untouched sub-trees."""
+    out = []
+    tr_cls = adapters.Transform
+    for p in range(size):
+        for fn in (lambda tr, p=p: tr.delete(p, p + 1), lambda tr, p=p: tr.insert(p, c.schema.text("z"))):
+            tr = tr_cls(node)
+            try:
+                fn(tr)
+            except Exception:  # noqa: BLE001
+                continue
+            if tr.steps:
+                out.append(tr.doc)
+    for p in range(1, size):
+        try:
+            out.append(node.cut(p))
+            out.append(node.cut(0, p))
+        except Exception:  # noqa: BLE001
+            pass
+    return out
 
 
 def _try_mid(L, name, res):
@@ -282,6 +323,17 @@ def _jk(j):
 
 def _ci(info):
     return (nj(info["node"]), info["index"], info["offset"])
+
+
+_QM: dict = {}
+
+
+def _query_marks(c):
+    if c.id not in _QM:
+        from ..universe import gen_steps
+
+        _QM[c.id] = gen_steps.schema_marks(c.model, 4)
+    return _QM[c.id]
 
 
 def _mark_queries(c):
@@ -335,6 +387,11 @@ def check_range(c, node, ref, T, p, q, ex, call, mark_queries, res):
     for m in seen_marks[:2]:
         lm = c.mark(m)
         call("c09.range_has_mark.mark", {**ex, "mark": m}, lambda: node.range_has_mark(p, q, lm), q > p)
+    # concrete marks (same type, other attribute values included): present exactly if an equal mark is in range
+    for m in _query_marks(c):
+        lm = c.mark(m)
+        want_q = q > p and any(rmk.in_set(m, k.marks) for k, *_ in visited)
+        call("c09.range_has_mark.mark", {**ex, "mark": m}, lambda: node.range_has_mark(p, q, lm), want_q)
     # text_between
     mid = rsl.is_midpair(T, p) or rsl.is_midpair(T, q)
     for sep, leaf in (("", ""), ("|", ""), ("\n", "*")):
@@ -378,5 +435,5 @@ def run_unit(u):
 def replay(case):
     res = engine.UnitResult(PROPERTY_ID)
     c = adapters.ctx(case["schema"], case.get("spec"))
-    check_doc(c, case["doc"], res)
+    check_doc(c, case.get("derived_from") or case["doc"], res)
     return res.violations
